@@ -280,6 +280,71 @@ def ecatGetitemOrig := ecatGetitemWith (fun _ i => i)
 def ecatArray (shape3 : List Nat) (T : Nat) : List Nat × List Nat :=
   (shape3 ++ [T], (List.range T).flatMap (fun i => (List.range shape3.prod).map (frameElem shape3 i)))
 
+/-! #### ECAT: frames are located through the matrix list (`get_frame_order`), each with its own scale factor -/
+
+/-- insertion sort (stable), the model of `np.argsort` on distinct keys -/
+def insertBy {α} (le : α → α → Bool) (a : α) : List α → List α
+  | [] => [a]
+  | b :: l => if le a b then a :: b :: l else b :: insertBy le a l
+
+def isort {α} (le : α → α → Bool) : List α → List α
+  | [] => []
+  | a :: l => insertBy le a (isort le l)
+
+/-- the id column after `ids[ids <= 0] = ids.max() + 1` -/
+def effIds (ids : List Int) : List Int :=
+  let mx := ids.foldl max (ids.headD 0)
+  ids.map (fun v => if v ≤ 0 then mx + 1 else v)
+
+/-- order of (id, row) pairs by id -/
+def idLe (a b : Int × Nat) : Bool := decide (a.1 ≤ b.1)
+
+/-- `get_frame_order(mlist)` (ecat.py:396-436) on the id column `mlist[:, 0]`: entry `i` is the matrix-list ROW
+    holding frame `i` — rows with a valid id (> 0) in ascending id order (invalid ids are replaced by
+    `max + 1`, sort last and are cut off by `n_valid`). -/
+def frameOrder (ids : List Int) : List Nat :=
+  let nValid := (ids.filter (fun v => decide (0 < v))).length
+  ((isort idLe (effIds ids).zipIdx).map (·.2)).take nValid
+
+
+/-- `EcatImageArrayProxy.__getitem__` (ecat.py:715-743, after the `fix:` commit) with the frame lookup
+    `data_from_fileobj(frame_mapping[i][0])` explicit: frame `i` is read from matrix-list row `rowOf i`.
+    Elements are numbered BY FILE ROW: element `e` (after the orientation flips) of the volume stored
+    in row `r` is `e + V*r`; `data_from_fileobj(r)` multiplies exactly these elements with
+    `scale_factor` of sub-header `r`, so the sub-header whose factor an output element carries is
+    `(its number) / V`. -/
+def ecatGetitemRows (rowOf : Nat → Nat) (shape3 : List Nat) (T : Nat) (idx : List IdxItem) :
+    Except Err (List Nat × List (Option Nat)) := do
+  let shape4 := shape3 ++ [T]
+  let items ← canonicalSlicers idx shape4
+  match splitReal shape3.length items with
+  | none => .error .value
+  | some (pre, slice3, post) =>
+      let inSlicer := pre ++ post
+      let sub : Nat → Except Err (NdArr Nat) := fun i => do
+        let sels ← itemsSels inSlicer shape3
+        pure (indexFn (frameElem shape3 (rowOf i)) shape3 sels)
+      match slice3 with
+      | .newaxis => .error .value
+      | .int i =>
+          if 0 ≤ i ∧ i < T then do
+            let a ← sub i.toNat
+            pure (a.shape, a.data.map some)
+          else .error .index
+      | .slice s => do
+          let outShape ← predictShape items shape4
+          let k := nonIntCount pre
+          let buf ← ecatLoop sub outShape k (fun outI _ => outI) 0 (s.sel T) (List.replicate outShape.prod none)
+          pure (outShape, buf)
+
+/-- file element (and, through `/ V`, sub-header row) shown by stacked-array element `q` -/
+def rowElem (rowOf : Nat → Nat) (V q : Nat) : Nat := q % V + V * rowOf (q / V)
+
+
+/-- `EcatImageArrayProxy.__array__` (ecat.py:688-713): `data[:, :, :, i] = data_from_fileobj(frame_mapping[i][0])` -/
+def ecatArrayRows (rowOf : Nat → Nat) (shape3 : List Nat) (T : Nat) : List Nat × List Nat :=
+  (shape3 ++ [T], (List.range T).flatMap (fun i => (List.range shape3.prod).map (frameElem shape3 (rowOf i))))
+
 /-! ### PAR/REC -/
 
 /-- `indices[0] != 0 or np.any(np.diff(indices) != 1)` is False -/
